@@ -27,14 +27,17 @@ import (
 
 // fsrv is a fault-scripted server for one scenario: it speaks UDP, TCP (optionally TLS), DoH or DoQ.
 type fsrv struct {
-	kind   string       // transport scheme served
-	fault  atomic.Value // current fault: "", "silent", "half", "garbage", "fin", "rst", "stall", "closeafter"
-	addr   string
-	conns  sync.Map
-	closer []func()
-	cert   tls.Certificate
-	nconn  atomic.Int32
-	nq     atomic.Int32
+	kind     string // transport scheme served
+	resetKey quic.StatelessResetKey
+	restart  func() // quic / h3: see rebind
+	kill     func()
+	fault    atomic.Value // current fault: "", "silent", "half", "garbage", "fin", "rst", "stall", "closeafter"
+	addr     string
+	conns    sync.Map
+	closer   []func()
+	cert     tls.Certificate
+	nconn    atomic.Int32
+	nq       atomic.Int32
 
 	closeOnEOF          atomic.Bool // life mode: the server closes its side when the client goes away
 	keepFailedHandshake atomic.Bool // keep a connection whose TLS handshake failed until the client closes it
@@ -52,6 +55,26 @@ func mkAnswer(w []byte) []byte {
 	r.Answer = append(r.Answer, &dns.A{Hdr: dns.RR_Header{Name: q.Question[0].Name, Rrtype: dns.TypeA, Class: 1, Ttl: 5}, A: net.IPv4(10, 1, 2, 3)})
 	o, _ := r.Pack()
 	return o
+}
+
+// rebind: the server process dies without a word (its socket is gone, nothing is sent on its connections) and a
+// new one comes up on the same address with the same stateless-reset key: packets of the old connections are
+// answered by stateless resets
+func (s *fsrv) rebind(old *net.UDPConn, start func(*net.UDPConn)) {
+	addr := old.LocalAddr().(*net.UDPAddr)
+	s.conns.Range(func(k, _ any) bool { s.conns.Delete(k); return true })
+	s.kill()
+	for i := 0; ; i++ {
+		uc, err := net.ListenUDP("udp", addr)
+		if err == nil {
+			start(uc)
+			return
+		}
+		if i > 200 {
+			panic(err)
+		}
+		time.Sleep(5 * time.Millisecond)
+	}
 }
 
 func (s *fsrv) killAll() {
@@ -339,80 +362,95 @@ func newFsrv(kind string) *fsrv {
 			panic(err)
 		}
 		s.addr = uc.LocalAddr().String()
-		qt := &quic.Transport{Conn: uc}
-		ql, err := qt.ListenEarly(http3.ConfigureTLSConfig(&tls.Config{Certificates: []tls.Certificate{s.cert}}), &quic.Config{MaxIdleTimeout: 10 * time.Second})
-		if err != nil {
-			panic(err)
+		var stop func()
+		start := func(uc *net.UDPConn) {
+			qt := &quic.Transport{Conn: uc, StatelessResetKey: &s.resetKey}
+			ql, err := qt.ListenEarly(http3.ConfigureTLSConfig(&tls.Config{Certificates: []tls.Certificate{s.cert}}), &quic.Config{MaxIdleTimeout: 10 * time.Second})
+			if err != nil {
+				panic(err)
+			}
+			h3s := &http3.Server{Handler: http.HandlerFunc(s.httpHandle)}
+			stop = func() { h3s.Close(); ql.Close(); qt.Close(); uc.Close() }
+			s.kill = func() { uc.Close(); qt.Close() } // socket first: nothing can be sent any more
+			go h3s.ServeListener(&trackingListener{EarlyListener: ql, s: s})
 		}
-		h3s := &http3.Server{Handler: http.HandlerFunc(s.httpHandle)}
-		s.closer = append(s.closer, func() { h3s.Close(); ql.Close(); qt.Close(); uc.Close() })
-		go h3s.ServeListener(&trackingListener{EarlyListener: ql, s: s})
+		start(uc)
+		s.closer = append(s.closer, func() { stop() })
+		s.restart = func() { s.rebind(uc, start) }
 	case "quic":
 		uc, err := net.ListenUDP("udp", &net.UDPAddr{IP: net.IPv4(127, 0, 0, 1)})
 		if err != nil {
 			panic(err)
 		}
 		s.addr = uc.LocalAddr().String()
-		qt := &quic.Transport{Conn: uc}
-		ql, err := qt.Listen(&tls.Config{Certificates: []tls.Certificate{s.cert}, NextProtos: []string{"doq"}}, &quic.Config{MaxIdleTimeout: 10 * time.Second})
-		if err != nil {
-			panic(err)
-		}
-		s.closer = append(s.closer, func() { ql.Close(); qt.Close(); uc.Close() })
-		go func() {
-			for {
-				c, err := ql.Accept(context.Background())
-				if err != nil {
-					return
-				}
-				s.nconn.Add(1)
-				s.conns.Store(c, true)
-				go func() {
-					for {
-						st, err := c.AcceptStream(context.Background())
-						if err != nil {
-							s.conns.Delete(c)
-							return
-						}
-						go func() {
-							h := make([]byte, 2)
-							if _, err := io.ReadFull(st, h); err != nil {
-								return
-							}
-							b := make([]byte, binary.BigEndian.Uint16(h))
-							if _, err := io.ReadFull(st, b); err != nil {
-								return
-							}
-							s.nq.Add(1)
-							switch s.f() {
-							case "silent", "noreply":
-								return
-							case "half":
-								st.Write([]byte{0, 90, 1, 2})
-								return
-							case "garbage":
-								st.Write([]byte{0, 5, 1, 2, 3, 4, 5})
-								st.Close()
-								return
-							case "fin", "rst":
-								c.CloseWithError(0, "bye")
-								return
-							}
-							a := mkAnswer(b)
-							f := make([]byte, 2+len(a))
-							binary.BigEndian.PutUint16(f, uint16(len(a)))
-							copy(f[2:], a)
-							st.Write(f)
-							st.Close()
-							if s.f() == "closeafter" {
-								time.Sleep(20 * time.Millisecond)
-								c.CloseWithError(0, "bye")
-							}
-						}()
-					}
-				}()
+		var stop func()
+		var start func(uc *net.UDPConn)
+		s.closer = append(s.closer, func() { stop() })
+		s.restart = func() { s.rebind(uc, start) }
+		start = func(uc *net.UDPConn) {
+			qt := &quic.Transport{Conn: uc, StatelessResetKey: &s.resetKey}
+			ql, err := qt.Listen(&tls.Config{Certificates: []tls.Certificate{s.cert}, NextProtos: []string{"doq"}}, &quic.Config{MaxIdleTimeout: 10 * time.Second})
+			if err != nil {
+				panic(err)
 			}
-		}()
+			stop = func() { ql.Close(); qt.Close(); uc.Close() }
+			s.kill = func() { uc.Close(); qt.Close() }
+			go func() {
+				for {
+					c, err := ql.Accept(context.Background())
+					if err != nil {
+						return
+					}
+					s.nconn.Add(1)
+					s.conns.Store(c, true)
+					go func() {
+						for {
+							st, err := c.AcceptStream(context.Background())
+							if err != nil {
+								s.conns.Delete(c)
+								return
+							}
+							go func() {
+								h := make([]byte, 2)
+								if _, err := io.ReadFull(st, h); err != nil {
+									return
+								}
+								b := make([]byte, binary.BigEndian.Uint16(h))
+								if _, err := io.ReadFull(st, b); err != nil {
+									return
+								}
+								s.nq.Add(1)
+								switch s.f() {
+								case "silent", "noreply":
+									return
+								case "half":
+									st.Write([]byte{0, 90, 1, 2})
+									return
+								case "garbage":
+									st.Write([]byte{0, 5, 1, 2, 3, 4, 5})
+									st.Close()
+									return
+								case "fin", "rst":
+									c.CloseWithError(0, "bye")
+									return
+								}
+								a := mkAnswer(b)
+								f := make([]byte, 2+len(a))
+								binary.BigEndian.PutUint16(f, uint16(len(a)))
+								copy(f[2:], a)
+								st.Write(f)
+								st.Close()
+								if s.f() == "closeafter" {
+									time.Sleep(20 * time.Millisecond)
+									c.CloseWithError(0, "bye")
+								}
+							}()
+						}
+					}()
+				}
+			}()
+		}
+		start(uc)
 	}
 	return s
 }
@@ -544,6 +582,16 @@ func faultScenario(kind, fault string, rng *rand.Rand) {
 		one(800*time.Millisecond, "reply")
 		s.fault.Store("")
 		time.Sleep(150 * time.Millisecond) // the server closed the idle connection meanwhile
+		for i := 0; i < 3; i++ {
+			one(1500*time.Millisecond, "reply")
+		}
+	case "restart":
+		// the server goes away without closing anything and comes back on the same address: the connection in the
+		// pool is dead (the new server answers its packets with stateless resets); exchanges get their replies
+		one(800*time.Millisecond, "reply")
+		time.Sleep(30 * time.Millisecond)
+		s.restart()
+		tr.Emit("fault", "sc", sc, "kind", "restart")
 		for i := 0; i < 3; i++ {
 			one(1500*time.Millisecond, "reply")
 		}
@@ -683,12 +731,15 @@ func modeFault(thorough bool) {
 	onlyEvents = map[string]bool{} // hook and server events are not needed here
 	rng := rand.New(rand.NewSource(seed))
 	kinds := []string{"udp", "tcp", "tcp+pipeline", "tls", "tls+pipeline", "https", "quic", "h3"}
-	faults := []string{"refuse", "silent", "noreply", "half", "garbage", "fin", "rst", "stall", "stale", "kill", "sndbuf", "sndbuf2", "eol"}
+	faults := []string{"refuse", "silent", "noreply", "half", "garbage", "fin", "rst", "stall", "stale", "kill", "sndbuf", "sndbuf2", "eol", "restart"}
 	var wg sync.WaitGroup
 	sem := make(chan struct{}, 6)
 	for _, k := range kinds {
 		for _, f := range faults {
 			if k == "udp" && (f == "fin" || f == "rst" || f == "stale" || f == "stall" || f == "kill" || f == "sndbuf" || f == "sndbuf2") {
+				continue
+			}
+			if f == "restart" && !(k == "quic" || k == "h3") {
 				continue
 			}
 			if f == "stall" && !(strings.HasPrefix(k, "tls") || k == "https") {
